@@ -145,6 +145,10 @@ func (p *parsedFile) getFuncAST(f string, l int) (d *ast.FuncDecl, err error) {
 			// gofmt will always format to one function call per line but there can
 			// be edge cases, like:
 			//   a = A{Foo(), Bar()}
+			if f, ok := n.(*ast.FuncDecl); ok && (l+1 >= len(p.lineToByteOffset) || int(n.Pos()) < p.lineToByteOffset[l+1]) {
+				// The function is declared on the line itself, e.g. a one line function.
+				lastFunc = f
+			}
 			d = lastFunc
 			//p.processNode(call, n)
 			return false
